@@ -18,6 +18,9 @@ type Sched struct {
 	Slow  int    // which output is the slow one (Pace == "slow")
 	Procs int    // GOMAXPROCS for the run (0 = leave)
 	Seed  uint64 // pacing seed
+	// Prefill hands every input over as a finished series: a channel with room
+	// for all of it, filled and closed before the pipeline is built.
+	Prefill bool
 }
 
 // Result is what the independent readers saw.
@@ -40,6 +43,16 @@ func Run[I any, O any](inputs [][]I, s Sched, build func(in []<-chan I) []<-chan
 	ins := make([]<-chan I, len(inputs))
 	pdone := make(chan struct{}, len(inputs))
 	for k := range inputs {
+		if s.Prefill {
+			ch := make(chan I, len(inputs[k]))
+			for _, v := range inputs[k] {
+				ch <- v
+			}
+			close(ch)
+			ins[k] = ch
+			pdone <- struct{}{}
+			continue
+		}
 		ch := make(chan I, s.Cap)
 		ins[k] = ch
 		go func(k int, ch chan I) {
